@@ -164,3 +164,56 @@ func TestVerifC05_FileAccessors(t *testing.T) {
 		})
 	})
 }
+
+// TestVerifC05_WideSquares runs the (light) read battery over file-backed accessors of wide
+// squares: ODS 64 and 128 in quick, up to the protocol maximum 512 is too heavy for a routine
+// check (ODS 256 is added in thorough). Arithmetic on header fields (uint16 square size x share
+// size) only misbehaves from ODS 128 on, which the narrow-square runs can never reach.
+func TestVerifC05_WideSquares(t *testing.T) {
+	defer vk.Flush()
+	ctx := context.Background()
+	widths := []int{64, 128}
+	if vk.Thorough() {
+		widths = []int{64, 128, 128, 256}
+	}
+	rapid.Check(t, func(t *rapid.T) {
+		sq := vk.GenSquare(t, "sq", vk.SquareOpts{ODS: widths, MaxRuns: 6})
+		base := rapid.SampledFrom([]string{"ods", "ods-nocache", "odsq4", "ods-missing-q4"}).Draw(t, "base")
+		stack := rapid.Bool().Draw(t, "storestack")
+		seed := rapid.Uint64().Draw(t, "batteryseed")
+		dir, err := os.MkdirTemp("", "c05wide")
+		if err != nil {
+			t.Fatalf("VERIF-INFRA: temp dir: %v", err)
+		}
+		defer os.RemoveAll(dir)
+		pathODS, pathQ4 := filepath.Join(dir, "sq.ods"), filepath.Join(dir, "sq.q4")
+		var acc eds.AccessorStreamer
+		if base == "odsq4" {
+			if err := CreateODSQ4(pathODS, pathQ4, sq.Roots, sq.EDS); err != nil {
+				t.Fatalf("C05: CreateODSQ4 of a valid square failed: %v [%s]", err, sq.Desc())
+			}
+		} else if err := CreateODS(pathODS, sq.Roots, sq.EDS); err != nil {
+			t.Fatalf("C05: CreateODS of a valid square failed: %v [%s]", err, sq.Desc())
+		}
+		ods, err := OpenODS(pathODS)
+		if err != nil {
+			t.Fatalf("C05: OpenODS of a file just created failed: %v [%s]", err, sq.Desc())
+		}
+		ods.disableCache = base == "ods-nocache"
+		acc = ods
+		if base == "odsq4" || base == "ods-missing-q4" {
+			acc = ODSWithQ4(ods, pathQ4)
+		}
+		inner := acc
+		defer inner.Close()
+		if stack {
+			acc = c05Stack(acc)
+		}
+		if err := rb.ReadBattery(ctx, acc, sq, rb.Opts{ID: "C05", Seed: seed, Validated: stack, Light: true}); err != nil {
+			t.Fatalf("%v\nrepresentation: wide square base=%s store-stack=%v", err, base, stack)
+		}
+		vk.Record(fmt.Sprintf("wide %s base=%s stack=%v seed=%d", sq.Desc(), base, stack, seed),
+			[]string{"wide:base=" + base, fmt.Sprintf("wide:ods=%d", sq.ODS), fmt.Sprintf("wide:stack=%v", stack)}, true,
+			func() any { return map[string]any{"square": sq.Desc(), "base": base, "store_stack": stack} })
+	})
+}
